@@ -41,6 +41,7 @@ type Sched struct {
 	Trace  []Step
 	NStep  int
 	OnStep func(t *Thread) // called just before t is resumed (scheduler goroutine)
+	Skip   func(point string) bool // hooks that are not scheduling points in this harness (run through)
 }
 
 func gid() int64 {
@@ -82,7 +83,7 @@ func (s *Sched) Yield(point string, enabled func() bool) {
 	s.mu.Lock()
 	t := s.byGid[gid()]
 	s.mu.Unlock()
-	if t == nil {
+	if t == nil || (s.Skip != nil && s.Skip(point)) {
 		return
 	}
 	t.Point, t.enabled = point, enabled
